@@ -70,7 +70,8 @@ pub fn str_skip_first_byte(s: &str) -> (r: &str)
 
 // TRUSTED(T3): std string / slice primitives used by the parsers
 pub assume_specification<T: Clone>[ <[T]>::to_vec ](s: &[T]) -> (r: Vec<T>)
-    ensures r@.len() == s@.len();
+    ensures r@.len() == s@.len(),
+            forall|i: int| 0 <= i < s@.len() ==> vstd::pervasive::cloned::<T>(s@[i], #[trigger] r@[i]);
 
 // R11 targets: total functions (they cannot panic); their results are left unspecified except where noted
 #[verifier::external_body]
